@@ -44,6 +44,7 @@ def run(prog, rep, tier, cfg):
     BC = X.fn('batch_claim_allocations', MI)
     ss = [c for c in BC.calls if sendsmod.is_send(c)]
     rep.need('K5', 'batch_claim:send', len(ss) == 1 and result_fate(BC, ss[0]) == 'try', 'one ClaimAllocations send, propagated', X.loc(BC))
+    sendsmod.exit_code_rule(X, rep, [sendsmod.SendSite(prog, c) for c in ss], {})
     for c in ss:
         X.arg_has('K10', 'batch_claim:to-registry', c, 1, ['K:VERIFIED_REGISTRY_ACTOR_ADDR'], 'sent to the verified registry')
         X.arg_has('K10', 'batch_claim:method', c, 2, ['K:CLAIM_ALLOCATIONS_METHOD'], 'ClaimAllocations')
